@@ -4,7 +4,7 @@ import common, tlc, zw, dwarfchk as D
 
 PID = "C02"
 Q_ENTRY = "raw entry (|D| [D, D label value, [D parent], [D child], [D attribute [label value, form value]], [D ?haschildren 1]])"
-Q_UNIT = "raw unit (|U| [U offset, [U root], [U entry]])"
+Q_UNIT = "raw unit (|U| [U offset, [U root], [U entry], U version])"
 Q_ENTRY2 = "entry raw [offset, [parent offset], [child offset], [attribute label value]]"     # cooked Dwarf, DIEs switched to raw
 
 
@@ -77,9 +77,9 @@ def check_forest(vd, v, b, recs, key):
     poss = [r[-1]["pos"] for r in ent["results"]]
     # units
     ug = [r[-1]["v"] for r in unit["results"]]
-    exp_units = [(b.unit_off[i], F["units"][i]["root"], v["unit_dies"][i]) for i in range(len(F["units"]))]
-    got_units = [(D.cst(u[0]), [D.ident(b, x) for x in u[1]["v"]], [D.ident(b, x) for x in u[2]["v"]]) for u in ug]
-    if [(o, [r], ds) for o, r, ds in exp_units] != got_units:
+    exp_units = [(b.unit_off[i], F["units"][i]["root"], v["unit_dies"][i], F["units"][i]["ver"]) for i in range(len(F["units"]))]
+    got_units = [(D.cst(u[0]), [D.ident(b, x) for x in u[1]["v"]], [D.ident(b, x) for x in u[2]["v"]], D.cst(u[3])) for u in ug]
+    if [(o, [r], ds, ver) for o, r, ds, ver in exp_units] != got_units:
         vd.observe(key + " units", {"expected": exp_units, "observed": got_units, "file": b.path}); ok = False
     return ok
 
